@@ -191,9 +191,9 @@ fn relations<const N: usize>() {
 }
 
 /// The same relations on real AdjacencyMap values whose vertex sets are
-/// subsets of {0, 2, 5} (isolated vertices included).
+/// subsets of {0, 2, 3} (isolated vertices included).
 fn relations_map() {
-    const IDS: [usize; 3] = [0, 2, 5];
+    const IDS: [usize; 3] = [0, 2, 3];
 
     cx::set_vcap(8);
 
@@ -283,14 +283,14 @@ pub fn c12_inherent_adjacency_list_n3_p4() {
     inherent::<AdjacencyList, 3>(4);
 }
 
-// @verif prop=C12 tier=quick fl=f2 role=inherent/adjacency-map t=1500 mem=14
+// @verif prop=C12 tier=quick fl=f2 feat=map4 role=inherent/adjacency-map t=1500 mem=14
 #[cfg_attr(kani, kani::proof)]
 #[cfg_attr(kani, kani::unwind(10))]
 pub fn c12_inherent_adjacency_map_n3() {
     inherent::<AdjacencyMap, 3>(1);
 }
 
-// @verif prop=C12 tier=quick fl=f1 role=inherent/weighted t=1200 mem=12
+// @verif prop=C12 tier=quick fl=f1 feat=map4 role=inherent/weighted t=1200 mem=12
 #[cfg_attr(kani, kani::proof)]
 #[cfg_attr(kani, kani::unwind(10))]
 pub fn c12_weighted_n3() {
@@ -305,7 +305,7 @@ pub fn c12_relations_n3() {
     relations::<3>();
 }
 
-// @verif prop=C12 tier=quick fl=f1 role=relations/adjacency-map t=1500 mem=14
+// @verif prop=C12 tier=quick fl=f1 feat=map4 role=relations/adjacency-map t=1500 mem=14
 #[cfg_attr(kani, kani::proof)]
 #[cfg_attr(kani, kani::unwind(10))]
 pub fn c12_relations_map() {
